@@ -129,6 +129,13 @@ def _appnames(x):
     return out
 
 
+GUARD = [None]     # guard(i) of the loop being summarised (iteration over a selection of positions), or None
+
+
+def _guarded(delta, i, g):
+    return delta if g is None else T.mk_ind(g(i)) * delta
+
+
 def summarise_scalar(orig, ph, name, out, i, iname, n, what):
     """out as a function of placeholder ph and index i -> final value"""
     out = P(out)
@@ -136,7 +143,9 @@ def summarise_scalar(orig, ph, name, out, i, iname, n, what):
         return orig
     delta = out - ph
     if not mentions(delta, name):
-        return P(orig) + T.mk_sum(i, n, delta)      # R3
+        return P(orig) + T.mk_sum(i, n, _guarded(delta, i, GUARD[0]))      # R3
+    if GUARD[0] is not None:
+        raise ModelError("loop over a selection rebinds '%s' non-additively" % what)
     if not mentions(out, name):
         # plain rebinding: value of the last iteration
         return T.subst(out, {iname: n - 1})
@@ -149,10 +158,11 @@ def summarise_scalar_to_arr(orig, ph, name, out, i, iname, n, what):
     delta = P(out.fn(*idx)) - ph
     if mentions(delta, name):
         raise ModelError("loop-carried scalar '%s' becomes an array non-additively" % what)
+    g0 = GUARD[0]        # captured now: the closure below runs later, when another loop may be being summarised
 
     def fn(*jj):
         mp = {nm: P(j) for nm, j in zip(names, jj)}
-        return P(orig) + T.mk_sum(i, n, T.subst(delta, mp))
+        return P(orig) + T.mk_sum(i, n, _guarded(T.subst(delta, mp), i, g0))
     return Arr(tuple(T.subst(d, {iname: ZERO}) for d in out.shape), fn, out.dtype, out.kind)
 
 
@@ -161,6 +171,8 @@ def summarise_arr(orig, ph, name, out, i, iname, n, what):
         raise ModelError("loop changes the type of '%s'" % what)
     if out.ndim != orig.ndim or not all(A.dim_eq(x, y) for x, y in zip(out.shape, orig.shape)):
         probe = P(out.fn(*[T.fresh("j") for _ in out.shape]))
+        if GUARD[0] is not None:
+            raise ModelError("loop over a selection changes the shape of '%s'" % what)
         if not mentions(probe, name):
             jn = [T.fresh("j") for _ in out.shape]
             jnames = [T.symname(x) for x in jn]
@@ -182,12 +194,15 @@ def summarise_arr(orig, ph, name, out, i, iname, n, what):
     if not mentions(delta, name):
         # R3: additive fold, elementwise
         ofn = orig.fn        # snapshot: orig itself may be updated in place with this result
+        g0 = GUARD[0]
 
         def fn(*jj, delta=delta):
             mp = {nm: P(j) for nm, j in zip(names, jj)}
             d = T.subst(delta, mp)
-            return P(ofn(*jj)) + T.mk_sum(i, n, d)
+            return P(ofn(*jj)) + T.mk_sum(i, n, _guarded(d, i, g0))
         return Arr(orig.shape, fn, orig.dtype, out.kind, origin=orig.origin)
+    if GUARD[0] is not None and not mentions(o, name):
+        raise ModelError("loop over a selection rebinds '%s'" % what)
     if not mentions(o, name):
         # plain rebinding inside the loop: the value of the last iteration
         def fn(*jj, o=o):
@@ -215,10 +230,17 @@ def summarise_arr(orig, ph, name, out, i, iname, n, what):
             if mentions(g, name):
                 g = None
     if g is not None and A.dim_eq(orig.shape[0], n):
+        guard = GUARD[0]
+        ofn2 = orig.fn
+
         def fn(*jj, g=g):
             mp = {nm: P(j) for nm, j in zip(names, jj)}
             mp[iname] = P(jj[0])
-            return T.subst(g, mp)
+            v = T.subst(g, mp)
+            if guard is not None:
+                # only the selected positions are visited: the others keep their value
+                return T.mk_ite(guard(P(jj[0])), v, P(ofn2(*jj)))
+            return v
         return Arr(orig.shape, fn, orig.dtype, out.kind, origin=orig.origin)
     raise ModelError("loop-carried array '%s' matches neither the fold nor the indexed-store rule" % what)
 
@@ -296,8 +318,11 @@ def symbolic_for(I, s, env, it, n):
             o.fields[fld] = p.view() if isinstance(p, Arr) else p
             ph[("a", o.oid, fld)] = (p, pname)
     # ---- run the body once
+    guard = getattr(it, "guard", None)
     I.assumed.add(T.cmp_cond("<=", ZERO, i))
     I.assumed.add(T.cmp_cond("<", i, n))
+    if guard is not None:
+        I.assumed.add(guard(i))
     elem = it.elem(i)
     I.assign(s.target, elem, env)
     pathlen = len(I.path)
@@ -310,6 +335,16 @@ def symbolic_for(I, s, env, it, n):
     if len(I.path) != pathlen:
         raise ModelError("data-dependent branch inside a summarised loop")
     # ---- summarise
+    GUARD[0] = guard
+    try:
+        _summarise_all(I, s, env, ph, saved, i, iname, n, names)
+    finally:
+        GUARD[0] = None
+    I.exec_block(s.orelse, env)
+
+
+def _summarise_all(I, s, env, ph, saved, i, iname, n, names):
+    guard = GUARD[0]
     for key, (p, pname) in ph.items():
         if key[0] == "n":
             nm = key[1]
@@ -328,7 +363,12 @@ def symbolic_for(I, s, env, it, n):
                     if not base_len.is_zero():
                         raise ModelError("append to a non-empty list in a summarised loop")
                     return subst_value(val, {iname: P(j)})
-                set_name(env, nm, SList(base_len + n, elem_fn))
+                if guard is not None:
+                    if not base_len.is_zero():
+                        raise ModelError("append to a non-empty list in a loop over a selection")
+                    set_name(env, nm, SList(n, elem_fn, filt=guard, base_len=n))
+                else:
+                    set_name(env, nm, SList(base_len + n, elem_fn))
                 continue
             if isinstance(p, Arr):
                 res = summarise_arr(orig, p, pname, out, i, iname, n, nm)
@@ -360,7 +400,6 @@ def symbolic_for(I, s, env, it, n):
                 env.local[nm] = subst_value(env.local[nm], {iname: n - 1})
             except ModelError:
                 env.local.pop(nm, None)
-    I.exec_block(s.orelse, env)
 
 
 def set_name(env, nm, v):
